@@ -9,7 +9,7 @@ Line protocol for C10.  ONE LINE = ONE SELF-CONTAINED HISTORY over any number of
     new <n> <LD|FD|LG|FG|TI> <6|16|32|64> ins <n> <quad>     ens <n> <term>     rem <n> <quad>
     fill <n> <k> <off> <lit|iri|qt|lang> clone <a> <b>      cfrom <a> <b>      drop <n>
     swap <a> <b>   mv <a> <b>   box <n>  take <a> <b>       all <n>            dbg <n>
-    esc <n> <x> <term>   resc <x>   desc <x>                via <own|ref>
+    esc <n> <x> <term>   resc <x>   desc <x>                via <own|ref>      gt <n> <i>
 
 (width `64`: `impl Index for usize`; width `6`: an `Index` type of the harness with `MAX = 6`, so that "index full" is reached by every
 history; `esc`: clone the term `Term::eq` to <term> that store <n> lends and keep it as <x>; `via`:
@@ -277,6 +277,12 @@ def exec1 (st : HState) (toks : List String) : HState × String :=
   | ["all", x] =>
     let (st', r) := apply1 st (.readAll (nameId x)) id
     (st', resStr r)
+  | ["gt", n, i] =>
+    -- `get_term(i)` with a raw index (bare index only): a term is lent iff `i < len()`, otherwise the call must
+    -- panic (`refused`) — it must not read beyond `i2t`
+    match st.w.get (nameId n), i.toNat? with
+    | some s, some i => if s.shape.n != 0 then (st, "bad") else (st, if i < s.ix.i2t.length then "ok" else "refused")
+    | _, _ => (st, "bad")
   | ["dbg", x] => applyX st (.dbg (nameId x))
   | "esc" :: n :: x :: rest =>
     match Term.parseAll rest with
@@ -323,7 +329,9 @@ def runHistory (ops : List (List String)) : String :=
     | op :: rest, k, st, acc =>
       let (st', r) := exec1 st op
       let ub := if st'.w.heap.ub && !st.w.heap.ub then [kv (toString k ++ ".ub") "1"] else []
-      go rest (k + 1) st' ((report k st').reverse ++ ub ++ [kv (toString k ++ ".r") r] ++ acc)
+      -- for `gt` the result IS what the property demands (oracle)
+      let orc := if op.head? == some "gt" && r != "bad" then [kv ("o." ++ toString k ++ ".r") r] else []
+      go rest (k + 1) st' ((report k st').reverse ++ ub ++ orc ++ [kv (toString k ++ ".r") r] ++ acc)
   reply (go ops 0 {} [])
 
 def handle (line : String) : String :=
